@@ -37,7 +37,7 @@ META = {
                     'normal form: detached/fresh-fragment arguments, no cycles, spent fragments not reused, '
                     'attribute fragments installed as plasTeX.TeX does and not edited afterwards',
                     'no fault space exists for this property (sequential refinement only)'],
-    'probe_names': ['frag_into_frag', 'frag_insert_middle', 'empty_frag', 'equal_text_siblings',
+    'probe_names': ['borrowed_without_reparenting', 'frag_into_frag', 'frag_insert_middle', 'empty_frag', 'equal_text_siblings',
                     'reinsertion_of_removed', 'normalize_merged', 'clone_deep', 'clone_shallow', 'attr_frag',
                     'cmp_deep_common_ancestor', 'setitem_frag', 'detached_target', 'dfs_exhaustive', 'str_argument', 'shadow_container_edit', 'element_with_str', 'insert_beyond_end'],
     'shrink_budget': 500,
@@ -47,7 +47,7 @@ META = {
 TAGS = ['a', 'b', 'c']
 TEXTS = ['x', 'y', 'x', ' ', 'zz', 'x', '']
 OPS = ['NEW_ELEM', 'NEW_TEXT', 'NEW_FRAG', 'APPEND', 'INSERT', 'INSERT_BEFORE', 'INSERT_AFTER',
-       'REPLACE', 'REMOVE', 'POP', 'SETITEM', 'EXTEND', 'SETATTR', 'NORMALIZE', 'CLONE', 'STR', 'SHADOW']
+       'REPLACE', 'REMOVE', 'POP', 'SETITEM', 'EXTEND', 'SETATTR', 'NORMALIZE', 'CLONE', 'STR', 'SHADOW', 'BORROW']
 
 
 def generate(seed, tier):
@@ -89,6 +89,8 @@ def generate(seed, tier):
             ops.append({'op': o, 't': r.randrange(64), 'a': r.randrange(64), 'key': r.choice(['k1', 'k2'])})
         elif o == 'SHADOW':
             ops.append({'op': o, 'how': r.choice(['pop', 'remove']), 't': r.randrange(64), 'i': r.randrange(64)})
+        elif o == 'BORROW':
+            ops.append({'op': o, 'how': r.choice(['append', 'extend', 'insert']), 't': r.randrange(64), 'frag': r.random() < 0.5})
         elif o == 'STR':
             ops.append({'op': o, 'how': r.choice(['append', 'insert', 'setitem']), 't': r.randrange(64), 'i': r.randrange(64),
                         'text': r.choice(TEXTS)})
@@ -279,6 +281,42 @@ class World(object):
                 raise Violation('C06|return|shadow-%s' % op['how'], {'what': 'removal on a fragment/clone returned another node'})
             t.shadow.pop(i)
             self.info['shadow_container_edit'] = 1
+            return
+        if o == 'BORROW':
+            # setParent=False (plasTeX's own fullTitle / fullTocEntry do this): a scratch fragment LISTS nodes that keep
+            # living where they are - nothing in the tree, and nothing in the lending fragment, may notice
+            view = self.doc.createDocumentFragment()
+            if op.get('frag'):
+                src = [m for m in self.nodes if m.kind == 'f' and not m.spent and m.holder is None and m.parent is None and m.children]
+                if not src:
+                    return
+                f = src[op['t'] % len(src)]
+                want = [c.real for c in f.children]
+                if op['how'] == 'insert':
+                    view.insert(0, f.real, setParent=False)
+                elif op['how'] == 'extend':
+                    view.extend([f.real], setParent=False)
+                else:
+                    view.append(f.real, setParent=False)
+            else:
+                tg = [m for m in self.targets(True) if m.children]
+                if not tg:
+                    return
+                t = tg[op['t'] % len(tg)]
+                want = [c.real for c in t.children]
+                if op['how'] == 'extend':
+                    view.extend(list(want), setParent=False)
+                else:
+                    for k, x in enumerate(want):
+                        if op['how'] == 'insert':
+                            view.insert(k, x, setParent=False)
+                        else:
+                            view.append(x, setParent=False)
+            got = list(view)
+            if len(got) != len(want) or any(a is not b for a, b in zip(got, want)):
+                raise Violation('C06|borrow|view-order', {'what': 'a setParent=False container does not list the borrowed nodes in order',
+                                                          'how': op['how'], 'frag': bool(op.get('frag'))})
+            self.info['borrowed_without_reparenting'] = 1
             return
         if o == 'STR':
             # a plain str argument: the DOM turns it into a text node of this document itself
